@@ -2,7 +2,7 @@
     Only statements here; proofs are in Fmt/VpkDirProofs.v, Fmt/VpkNameProofs.v and SM/VpkProofs.v. *)
 From Coq Require Import List NArith Bool Permutation.
 From SV Require Import Fmt.VpkDir Fmt.VpkDirProofs Fmt.VpkName Fmt.VpkNameSplit Fmt.VpkNameProofs SM.Vpk SM.VpkProofs.
-From SV Require Import Fmt.VpkArchName Fmt.VpkArchNameProofs SM.VpkRefine.
+From SV Require Import Fmt.VpkArchName Fmt.VpkArchNameProofs SM.VpkRefine Fmt.VpkDirV2.
 Import ListNotations.
 Open Scope N_scope.
 
@@ -175,3 +175,17 @@ Theorem c13_refines_premises_satisfiable :
   vcfg_okb ex_cfg = true /\ collision_freeb crc32 ex_ops = true
   /\ match run crc32 ex_cfg init ex_ops with Some _ => true | None => false end = true.
 Proof. exact refines_example. Qed.
+
+(** ---- version 2 directory files (read side; write_dirfile refuses them) ---- *)
+
+(** The four extra header fields of version 2 are skipped and the entries preserved: a version-2 file with the tree and
+    trailing bytes that write_dirfile produces decodes to the same entries and footer_data, whatever the fields hold. *)
+Theorem c13_dirtree_roundtrip_v2 : forall c, dcfg_ok c = true -> forall t h1 h2 h3 h4 footer b,
+  h1 < 4294967296 -> h2 < 4294967296 -> h3 < 4294967296 -> h4 < 4294967296 ->
+  wf_tree c t -> enc_file_v2 c t h1 h2 h3 h4 footer = Some b ->
+  dec_file_v c b = Some (2, nmap (flat_tree t), footer).
+Proof. exact dirtree_roundtrip_v2. Qed.
+
+(** The two-version decoder agrees with the version-1 decoder the other theorems are about. *)
+Theorem c13_dec_file_v_extends_v1 : forall c bs es f, dec_file c bs = Some (es, f) -> dec_file_v c bs = Some (1, es, f).
+Proof. exact dec_file_v_v1. Qed.
